@@ -16,11 +16,11 @@ META = {
     "coq_targets": ["Props/Properties_C19.vo", "Engine/EvacCheck.vo"],
     "coq_files": ["Engine/Model.v", "Engine/Spec.v", "Engine/Check.v", "Engine/Gc.v", "Engine/Check8.v", "Engine/GetProofs.v",
                   "Engine/LockProofs.v", "Gen/EngineConsts.v", "Engine/Evac.v", "Engine/EvacSpec.v", "Engine/EvacCheck.v",
-                  "Engine/EvacProofs.v", "Engine/EvacStatus.v", "Engine/EvacWitness.v", "Props/Properties_C19.v"],
-    "theorems": ["C19_sources_unchanged", "C19_listing_is_filter", "C19_moved",
+                  "Engine/EvacProofs.v", "Engine/EvacPreserved.v", "Engine/EvacStatus.v", "Engine/EvacWitness.v",
+                  "Props/Properties_C19.v"],
+    "theorems": ["C19_listing_is_filter", "C19_sources_unchanged", "C19_moved",
                  "C19_preserved_partial", "C19_preserved_refuted", "C19_preserved_refuted_separated_lock",
-                 "C19_status_not_created", "C19_status_unchanged_partial", "C19_status_unchanged_refuted",
-                 "C19_checked_premises"],
+                 "C19_records_from_before", "C19_tombstone_not_created", "C19_status_unchanged_refuted"],
     "technique": "Coq proof by invariant over the whole evacuation loop (every source subset and order incl. duplicates, every "
                  "listing order, every HRW order per object, every shard content / mode / fault flag / error threshold, with and "
                  "without ignoreErrors and fault handler) about an executable model of StorageEngine.Evacuate on top of the engine "
@@ -28,20 +28,22 @@ META = {
                  "(every operation, a per-shard probe of every address before and after the evacuation, reads over the remaining "
                  "shards after the sources were detached)",
     "level_text": "C19_sources_unchanged: whatever Evacuate returns, every source shard is exactly what it was (all inputs). "
-                  "C19_moved: Evacuate = Ok => every address a source shard lists and serves was handed to the fault handler or is "
-                  "held (metadata, or data on a shard without metabase) by a shard that is not evacuated (all inputs). "
-                  "C19_preserved_partial: Evacuate = Ok => every address available on a source with bytes b that is in the class "
-                  "c19_good (not recorded as removed / expired on any shard, so its availability does not hang on a lock; equal "
-                  "bytes on all copies; the remaining shards do not fail reads and have no metadata without data) is returned with "
-                  "bytes b by engine_get for EVERY visiting order over the remaining shards, unless the fault handler took it. "
-                  "C19_preserved_refuted*: without the class the statement fails on reachable states (garbage-marked object kept by a "
-                  "lock is not listed; an expired object and the lock that keeps it land on different shards). "
-                  "C19_status_not_created: a tombstone / lock status seen on the remaining shards after the evacuation was seen on "
-                  "some shard before (one header per object ID assumed). C19_status_unchanged_partial: equality of both statuses "
-                  "for every address whose tombstone / lock objects on the sources are movable (class c19_status_good). "
-                  "C19_status_unchanged_refuted: outside the class a tombstone is lost (ignoreErrors skips an unreadable tombstone "
-                  "object and Evacuate still reports success).",
-    "level_note": "partial: the unrestricted preservation statement is false for the real engine (known findings "
+                  "C19_listing_is_filter: the paged listing (page size from the code) returns every listed ID exactly once. "
+                  "C19_moved: Evacuate = Ok => every address a source shard lists and serves (tombstone and lock objects included) was "
+                  "handed to the fault handler or is held (metadata, or data on a shard without metabase) by a shard that is not "
+                  "evacuated (all inputs). C19_preserved_partial: Evacuate = Ok => every address available on a source with bytes b "
+                  "that is in the class c19_good (not recorded as removed / expired on any shard, so its availability does not hang on "
+                  "a lock; equal bytes on all copies; the remaining shards do not fail reads and have no metadata without data) is "
+                  "returned with bytes b by engine_get for EVERY visiting order over the remaining shards, unless the fault handler "
+                  "took it. C19_preserved_refuted*: without the class the statement fails on reachable states (garbage-marked object "
+                  "kept by a lock is not listed; an expired object and the lock that keeps it land on different shards). "
+                  "C19_records_from_before / C19_tombstone_not_created: every metabase record (hence every tombstone status) of every "
+                  "shard afterwards existed on some shard before (all inputs). C19_status_unchanged_refuted: the status equality "
+                  "fails - ignoreErrors skips an unreadable tombstone object and Evacuate still reports success. NOT proved as "
+                  "theorems: equality of the lock status and the not-lost direction of the tombstone status inside the class "
+                  "c19_status_good (checked on the real engine by the correspondence run only).",
+    "level_note": "partial: the status-unchanged clause is only half proved (no status is created; the not-lost direction and the "
+                  "lock status are tied differentially, not proved). The unrestricted preservation statement is false for the real engine (known findings "
                   "lock-kept-object-not-evacuated, lock-separated-from-object; the silent skip of a source shard without metabase was "
                   "repaired); proved for the complementary class. Modelled, not verified: shard internals (metabase status rules, blob "
                   "storage) are the abstract hand-written model of C20/C08 tied by the differential check only; the listing is "
